@@ -10,6 +10,8 @@ from ..harness import Sub, Violation, Inconclusive, crash_is_violation
 from ..oracles import bspl, advect
 
 PROPERTY = "C12"
+HANG_SECONDS = 400.0
+LINE_BUDGET = 1000000000
 RULE = ("Hypothesis-generated cases: ntheta 6-12 (periodic), nr 6-12 (clamped), uniform cubic or general degree <= 5, "
         "phi = generated combination of low modes g(r) cos(k theta + alpha), arbitrary f (modes + seeded noise), dt of "
         "either sign sized by a generated target displacement (sub-cell to several cells, feet leaving the radial domain "
